@@ -13,3 +13,6 @@ type VerifPoint = edwards25519.Point
 func VerifNewScalar() *VerifScalar        { return edwards25519.NewScalar() }
 func VerifNewIdentityPoint() *VerifPoint  { return edwards25519.NewIdentityPoint() }
 func VerifNewGeneratorPoint() *VerifPoint { return edwards25519.NewGeneratorPoint() }
+
+// VerifResetTables forgets the lazily built base point tables (see the internal package).
+func VerifResetTables() { edwards25519.VerifResetTables() }
